@@ -15,7 +15,7 @@ fn main() {
         let mut in_proof = false;
         for line in text.lines() {
             let t = line.trim_start();
-            if t.starts_with("proof!") { in_proof = true; }
+            if t.starts_with("proof!") || t.starts_with("proof_h!") { in_proof = true; }
             if in_proof {
                 if let Some(rest) = t.strip_prefix("fn ") {
                     if let Some(i) = rest.find("()") {
